@@ -25,6 +25,9 @@ class VC(Scheduler):
         self.vc: Dict[ClassId, SimTime] = dict()
         self.aux_vc: Dict[ClassId, SimTime] = dict()
         self.store = PriorityStore(env)
+        self.arrivals: int = 0
+        """Number of packets received so far; last component of the store key,
+        so that equal stamps at one instant leave in arrival order"""
         for class_id in vticks.keys():
             self.aux_vc[class_id] = 0
             self.vc[class_id] = 0
@@ -56,4 +59,9 @@ class VC(Scheduler):
         # use aux_vc as stamp value
         # a PriorityItem compares by its priority only, so equal stamps never
         # compare two Packets
-        self.store.put(PriorityItem((self.aux_vc[class_id], now), packet))
+        # (the heap is not FIFO among equal keys: the arrival counter makes all
+        # keys distinct and orders equal stamps by arrival)
+        self.arrivals += 1
+        self.store.put(
+            PriorityItem((self.aux_vc[class_id], now, self.arrivals), packet)
+        )
